@@ -143,8 +143,16 @@ class schur_pressure_correction {
                     switch (pattern[0]) {
                         case '%':
                             {
-                                int start  = std::atoi(pattern.substr(1).c_str());
-                                int stride = std::atoi(pattern.substr(3).c_str());
+                                // "%start:stride"
+                                size_t colon = pattern.find(':');
+                                precondition(colon != std::string::npos,
+                                        "Error in schur_complement parameters: "
+                                        "pmask_pattern should be %start:stride");
+                                int start  = std::atoi(pattern.substr(1, colon - 1).c_str());
+                                int stride = std::atoi(pattern.substr(colon + 1).c_str());
+                                precondition(start >= 0 && stride > 0,
+                                        "Error in schur_complement parameters: "
+                                        "wrong start or stride in pmask_pattern");
                                 for(size_t i = start; i < n; i += stride) pmask[i] = 1;
                             }
                             break;
